@@ -299,9 +299,15 @@ def case_npy(ctx, inp):
     tmp = tempfile.mkdtemp(prefix="verif_c29_")
     try:
         dirname = os.path.join(tmp, "stack") if inp["fresh_dir"] else tmp
+        if inp.get("stale"):
+            # an earlier, larger stack in the same directory leaves higher-numbered files behind
+            big = da.from_array(np.zeros((inp["stale"],) + tuple(shape[1:]), dtype=a.dtype) if axis == 0 else
+                                np.zeros(tuple(shape), dtype=a.dtype), chunks=1 if axis == 0 else chunks)
+            if axis == 0:
+                da.to_npy_stack(dirname, big, axis=0)
         da.to_npy_stack(dirname, d, axis=axis)
         files = sorted(f for f in os.listdir(dirname) if f.endswith(".npy"))
-        if len(files) != len(chunks[axis]):
+        if not inp.get("stale") and len(files) != len(chunks[axis]):
             ctx.fail("to_npy_stack wrote a wrong number of files", observed=files, expected=len(chunks[axis]))
         try:
             b = da.from_npy_stack(dirname, mmap_mode=inp["mmap"])
@@ -329,6 +335,10 @@ def case_npy(ctx, inp):
     finally:
         shutil.rmtree(tmp, ignore_errors=True)
     ctx.branch("npy-axis-%d" % axis)
+    if len(chunks[axis]) > 10:
+        ctx.branch("npy-more-than-10-files")
+    if inp.get("stale"):
+        ctx.branch("npy-stale-files-in-directory")
     if len(chunks[axis]) > 1:
         ctx.branch("npy-multi-file")
     if any(len(c) > 1 for i, c in enumerate(chunks) if i != axis):
@@ -423,6 +433,37 @@ def generate(ctx):
                         "compute": rng.random() < 0.6, "return_stored": rng.random() < 0.4,
                         "scheduler": rng.choice(["sync", "sync", "threads"]), "delayed_target": rng.random() < 0.15,
                         "one_region_for_all": one}
+    # npy stacks with many blocks along the stacking axis (file names 10.npy, 11.npy, ...) and stale files
+    for _ in range(ctx.n(10, 120)):
+        nd = rng.randint(1, 3)
+        axis = rng.randrange(nd)
+        chunks = [list(random_chunks(rng, rng.randint(1, 4))) for _ in range(nd)]
+        nblocks = rng.randint(11, 24)
+        chunks[axis] = [rng.choice([1, 1, 2, 3]) if rng.random() < 0.5 else 1 for _ in range(nblocks)]
+        yield "npy", {"chunks": chunks, "axis": axis, "dtype": rng.choice(["int64", "float64"]), "mmap": rng.choice(["r", None]),
+                      "fresh_dir": rng.random() < 0.5}
+    for _ in range(ctx.n(6, 60)):
+        nd = rng.randint(1, 2)
+        chunks = [list(random_chunks(rng, rng.randint(2, 5))) for _ in range(nd)]
+        yield "npy", {"chunks": chunks, "axis": 0, "dtype": "int64", "mmap": None, "fresh_dir": rng.random() < 0.5,
+                      "stale": rng.randint(len(chunks[0]) + 1, 14)}
+    # many blocks along an axis for store
+    for _ in range(ctx.n(6, 60)):
+        nb = rng.randint(11, 20)
+        src = {"chunks": [[rng.choice([1, 2]) for _ in range(nb)], list(random_chunks(rng, rng.randint(1, 3)))], "region": None}
+        shape = [sum(c) for c in src["chunks"]]
+        if rng.random() < 0.5:
+            region, tshape = [], []
+            for n in shape:
+                r, t = _rand_region(rng, n)
+                region.append(r)
+                tshape.append(t)
+            src["region"], src["tshape"] = region, tshape
+        else:
+            src["tshape"] = shape
+        yield "store", {"same_source": None, "sources": [src], "single": True, "lock": rng.choice(["true", "false"]),
+                        "compute": True, "return_stored": rng.random() < 0.3, "scheduler": rng.choice(["sync", "threads"]),
+                        "delayed_target": False, "one_region_for_all": False}
     # npy stacks
     for _ in range(ctx.n(25, 300)):
         nd = rng.randint(1, 3)
